@@ -66,6 +66,21 @@ func (g *GogoV) Unmarshal(b []byte) error {
 	return nil
 }
 
+// GogoGen looks like gogoproto-generated code: Size/MarshalTo/Unmarshal and ProtoMessage. The
+// library encodes such types field by field (the methods below would give other bytes, which no
+// decoder of the fields understands: any use of them shows).
+type GogoGen struct {
+	A int64
+	B string
+}
+
+func (g GogoGen) Size() int                       { return 1 }
+func (g GogoGen) MarshalTo(b []byte) (int, error) { b[0] = 0xEE; return 1, nil }
+func (g *GogoGen) Unmarshal(b []byte) error       { g.A, g.B = -77, "custom-path"; return nil }
+func (g *GogoGen) ProtoMessage()                  {}
+
+var TGogoGen = reflect.TypeOf(GogoGen{})
+
 // IsCustom reports whether t is one of the message types with their own encoding.
 func IsCustom(t reflect.Type) bool { return t == TMsg || t == TGogo || t == TGogoV || t == TRaw }
 
@@ -133,6 +148,9 @@ var bigNumberPool = []int{65536, 65537, 131071, 1 << 20, 1<<29 - 1}
 // Message builds a struct type.
 func (g *Gen) Message(depth int) reflect.Type {
 	r := g.R
+	if depth > 0 && g.Cfg.Custom && !g.Cfg.RefOnly && r.Chance(1, 16) {
+		return TGogoGen // nested by value, by pointer, as element or map value
+	}
 	n := r.Intn(g.Cfg.MaxFields + 1)
 	if r.Chance(1, 14) {
 		n = core.Pick(r, []int{0, 1, 1, 16, 20, 40})
